@@ -18,4 +18,11 @@ var corpusScripts = []string{
 	// column; the longest form the grammar allows between PRIMARY KEY and AUTOINCREMENT
 	"CREATE TABLE t (id integer PRIMARY KEY NOT NULL CHECK (autoincrement_x > 0), autoincrement_x int);",
 	"CREATE TABLE t (id integer NOT NULL PRIMARY KEY DESC ON CONFLICT REPLACE AUTOINCREMENT, b int);",
+	// round 5b: foreign keys in a cycle, a self reference, a child created before its parent (the SQL export keeps the
+	// inspection order; SQLite resolves parents lazily)
+	"CREATE TABLE a (id int primary key, b_id int REFERENCES b (id)); CREATE TABLE b (id int primary key, a_id int, CONSTRAINT b_a FOREIGN KEY (a_id) REFERENCES a (id)); CREATE TABLE s (id int primary key, up int REFERENCES s (id)); CREATE INDEX a_b ON a (b_id);",
+	// two named inline references in one column definition: reFKC's greedy [^,]* finds the last one only
+	"CREATE TABLE c (id int primary key, x int unique, pid int CONSTRAINT fk_a REFERENCES c (id) CONSTRAINT fk_b REFERENCES c (x));",
+	// the name normalizeIdxName gives the index of a UNIQUE constraint (t_a) is taken by another index
+	"CREATE TABLE t (a int UNIQUE, b int); CREATE INDEX t_a ON t (b);",
 }
